@@ -33,6 +33,8 @@ var gateSites = map[string]bool{
 	"repo.refresh.swapping": true, "repo.swap.locked": true, "repo.swap.unlocking": true, "repo.refresh.swapped": true,
 	"ldb.update.closedOld": true, "ldb.update.closedNew": true, "ldb.update.movedAside": true, "ldb.update.movedIn": true, "ldb.update.removedOld": true, "ldb.update.reopened": true,
 	"map.update.replaced": true,
+	// not a hook: the origin parks here after half of the body went out (the loader is inside its transfer)
+	"origin.midbody": true,
 }
 
 // sites at which the loader holds the entry write lock (lookups must block)
@@ -304,15 +306,19 @@ func (rw *repoWorld) serve(kind string, keys []string) {
 		number += 100000 // a forged list claims a number far ahead: being rejected, it must leave nothing behind that outdates the next genuine one
 	}
 	body := BuildCRL(CRLSpec{Signer: signer, Listed: listed, Avoid: avoid, Number: number}, sh)
+	// every transfer that completes stops half way at the stepper's gate "origin.midbody" (the specification's pc "fetching")
+	gated := func(b []byte) origin.Behaviour {
+		return origin.Behaviour{Kind: "gated", Body: b, Gate: func() { rw.step.handler("origin.midbody") }}
+	}
 	switch kind {
 	case "garbage":
-		rw.org.SetBody(pathRepo, []byte("<html>503 service unavailable</html>"))
+		rw.org.Set(pathRepo, gated([]byte("<html>503 service unavailable</html>")))
 	case "trunc":
-		rw.org.SetBody(pathRepo, body[:len(body)*2/3])
+		rw.org.Set(pathRepo, gated(body[:len(body)*2/3]))
 	case "down":
 		rw.org.Set(pathRepo, origin.Behaviour{Kind: "hangup", Body: body[:10]})
 	default:
-		rw.org.SetBody(pathRepo, body)
+		rw.org.Set(pathRepo, gated(body))
 	}
 }
 
